@@ -190,7 +190,7 @@ def explore(ctx, check):
                     r = run_pool(max_size, progs, plan, opcodes, pooled)
                     ctx.c08_runs.append((((max_size, progs), plan, opcodes, pooled), r))
                     check((max_size, progs), plan, opcodes, pooled, r)
-                    if len(plan) <= 1 and not opcodes:
+                    if len(plan) <= 1 and not opcodes and (pooled or not ctx.quick):
                         # the same plan with blocking socket calls: a thread inside its socket call lets the others run
                         n += 1
                         r = run_pool(max_size, progs, plan, opcodes, pooled, True)
